@@ -514,7 +514,7 @@ class TracerMixin:
         # If starting from an empty `Trace` or `reset`ting the `Trace`,
         # re-initialise the variable
         if self[self.TRACE_NAME][t].is_empty() or reset:
-            self[self.TRACE_NAME][t] = Trace(names)
+            self[self.TRACE_NAME][t] = Trace(list(names))
 
         # Add the results to the `Trace`
         self[self.TRACE_NAME][t].append(label, results)
